@@ -8,6 +8,16 @@
 (*              empty one included; 2-D rows get -1 boundaries) and the    *)
 (*              result is written back as a hypothesis: what is then on    *)
 (*              disk must be the bare transcript again.                    *)
+(*              The ROUTE by which the symbols reach the data set is part  *)
+(*              of the case: through the parameter object ("params"),      *)
+(*              through the sos= / eos= keyword arguments of SpectDataSet  *)
+(*              ("kwarg": they override the parameter object), or through  *)
+(*              a parameter object that is changed after the data set was  *)
+(*              built ("mutated").  In the last case the property does not *)
+(*              say whether the data set follows the object or keeps what  *)
+(*              it was built with (Bindings: both are accepted), but       *)
+(*              whichever symbols the read put around the transcript, the  *)
+(*              write takes off again (RoundTripAnyBinding).               *)
 (* kind "hyp":  an arbitrary hypothesis (sos / eos anywhere, repeatedly) is*)
 (*              written: everything up to and including the LAST sos and   *)
 (*              from the FIRST eos on is removed (code-shaped index search  *)
@@ -64,6 +74,23 @@ WriteDecl(rows, nd, sos, eos) ==
   IN SubSeq(rows, lo + 1, hi - 1)
 
 (***************************************************************************)
+(* How the symbols reach the data set                                      *)
+(***************************************************************************)
+Routes == {"params", "kwarg", "mutated"}
+Flip(x, sym) == IF x = None THEN sym ELSE None
+\* p: the parameter object when the data set is built; k: the keyword arguments; m: the parameter
+\* object when the data set is used
+Config(route, sos, eos) ==
+  CASE route = "params"  -> [psos |-> sos, peos |-> eos, ksos |-> None, keos |-> None, msos |-> sos, meos |-> eos]
+    [] route = "kwarg"   -> [psos |-> None, peos |-> None, ksos |-> sos, keos |-> eos, msos |-> None, meos |-> None]
+    [] route = "mutated" -> [psos |-> sos, peos |-> eos, ksos |-> None, keos |-> None,
+                             msos |-> Flip(sos, Sos), meos |-> Flip(eos, Eos)]
+Over(k, p) == IF k # None THEN k ELSE p        \* a keyword argument overrides the parameter object
+Built(g) == [sos |-> Over(g.ksos, g.psos), eos |-> Over(g.keos, g.peos)]   \* the configured symbols
+Live(g) == [sos |-> Over(g.ksos, g.msos), eos |-> Over(g.keos, g.meos)]    \* following the object
+Bindings(g) == {Built(g), Live(g)}
+
+(***************************************************************************)
 (* find_utt_ids                                                            *)
 (***************************************************************************)
 InDir(files, sub, fam) == {u \in Utts : <<sub, fam, u>> \in files}        \* _utts_in_dir
@@ -94,15 +121,19 @@ SetToSeq(S) == LET RECURSIVE F(_)
 
 InitRef ==
   /\ kind = "ref"
-  /\ \E nd \in {1, 2}, to \in BOOLEAN, sos \in {None, Sos}, eos \in {None, Eos} :
+  /\ \E nd \in {1, 2}, to \in BOOLEAN, sos \in {None, Sos}, eos \in {None, Eos}, route \in Routes :
        \E rows \in (IF nd = 1 THEN Rows1(MaxR) ELSE Rows2(MaxR)) :
-          c = [nd |-> nd, rows |-> rows, tokens_only |-> to, sos |-> sos, eos |-> eos]
+          /\ route = "kwarg" => (sos # None \/ eos # None)       \* else it is the "params" case
+          /\ c = [nd |-> nd, rows |-> rows, tokens_only |-> to, sos |-> sos, eos |-> eos,
+                  route |-> route, cfg |-> Config(route, sos, eos)]
 InitHyp ==
   /\ kind = "hyp"
-  /\ \E nd \in {1, 2}, sos \in {None, Sos}, eos \in {None, Eos} :
+  \* (an arbitrary hypothesis is not the result of a read: with a "mutated" object nothing is claimed)
+  /\ \E nd \in {1, 2}, sos \in {None, Sos}, eos \in {None, Eos}, route \in {"params", "kwarg"} :
        \E h \in Hyps1(MaxH) :
-          c = [nd |-> nd, rows |-> [j \in 1..Len(h) |-> Sym(nd, h[j])], tokens_only |-> FALSE,
-               sos |-> sos, eos |-> eos]
+          /\ route = "kwarg" => (sos # None \/ eos # None)
+          /\ c = [nd |-> nd, rows |-> [j \in 1..Len(h) |-> Sym(nd, h[j])], tokens_only |-> FALSE,
+                  sos |-> sos, eos |-> eos, route |-> route, cfg |-> Config(route, sos, eos)]
 AllFiles == {"feat", "ali", "ref"} \X Fams \X Utts
 InitDisc ==
   /\ kind = "disc"
@@ -113,11 +144,12 @@ Init == /\ (InitRef \/ InitHyp \/ InitDisc)
 
 Read ==
   /\ kind = "ref" /\ stage = 0
-  /\ out' = <<ReadRef(c.rows, c.nd, c.tokens_only, c.sos, c.eos)>>
+  /\ out' = <<ReadRef(c.rows, c.nd, c.tokens_only, Built(c.cfg).sos, Built(c.cfg).eos)>>
   /\ stage' = 1 /\ UNCHANGED <<kind, c>>
 Write ==
-  /\ \/ kind = "ref" /\ stage = 1 /\ out' = Append(out, WriteHyp(out[1].rows, out[1].nd, c.sos, c.eos))
-     \/ kind = "hyp" /\ stage = 0 /\ out' = <<WriteHyp(c.rows, c.nd, c.sos, c.eos)>>
+  /\ \/ kind = "ref" /\ stage = 1
+        /\ out' = Append(out, WriteHyp(out[1].rows, out[1].nd, Built(c.cfg).sos, Built(c.cfg).eos))
+     \/ kind = "hyp" /\ stage = 0 /\ out' = <<WriteHyp(c.rows, c.nd, Built(c.cfg).sos, Built(c.cfg).eos)>>
   /\ stage' = 2 /\ UNCHANGED <<kind, c>>
 Disc ==
   /\ kind = "disc" /\ stage = 0
@@ -147,6 +179,16 @@ RoundTrip ==
      /\ Len(out[2]) = Len(c.rows)
      /\ \A j \in 1..Len(c.rows) : TokOf(out[1].nd, out[2][j]) = TokOf(c.nd, c.rows[j])
      /\ (~c.tokens_only => out[2] = c.rows)
+\* the configured symbols are the ones given, by whichever route
+RouteIsTransparent == (kind \in {"ref", "hyp"}) => Built(c.cfg) = [sos |-> c.sos, eos |-> c.eos]
+\* whichever of the accepted symbol pairs the read used, the write that uses the same pair gives the
+\* same bare transcript
+ReadsOf(cc) == {ReadRef(cc.rows, cc.nd, cc.tokens_only, b.sos, b.eos) : b \in Bindings(cc.cfg)}
+RoundTripAnyBinding ==
+  (kind = "ref" /\ stage = 2) =>
+     \A b \in Bindings(c.cfg) :
+        LET rd == ReadRef(c.rows, c.nd, c.tokens_only, b.sos, b.eos)
+        IN WriteHyp(rd.rows, rd.nd, b.sos, b.eos) = out[2]
 StripIsDeclared ==
   (kind = "hyp" /\ stage = 2) => out[1] = WriteDecl(c.rows, c.nd, c.sos, c.eos)
 DiscoveryIsDeclared ==
@@ -163,5 +205,5 @@ Export ==
                 listed |-> SetToSeq(out[1])])
      ELSE IF kind = "hyp"
      THEN Emit([what |-> "hyp", c |-> c, written |-> out[1]])
-     ELSE Emit([what |-> "ref", c |-> c, read |-> out[1], written |-> out[2]])
+     ELSE Emit([what |-> "ref", c |-> c, read |-> out[1], reads |-> SetToSeq(ReadsOf(c)), written |-> out[2]])
 =============================================================================
